@@ -13,7 +13,7 @@ from lerax.env.classic_control import (Acrobot, CartPole, ContinuousMountainCar,
                                        Pendulum)
 from lerax.space import Box, Discrete
 from lerax.wrapper import (ClipAction, FlattenObservation, RescaleAction, RescaleObservation,
-                           TimeLimit)
+                           TimeLimit, TransformAction)
 
 
 def _variants(env, name):
@@ -24,6 +24,14 @@ def _variants(env, name):
     osp = env.observation_space
     if isinstance(osp, Box) and bool(np.isfinite(np.asarray(osp.low)).all() and np.isfinite(np.asarray(osp.high)).all()):
         out.append((f"RescaleObservation({name})", RescaleObservation(env)))
+        # an action wrapper ABOVE a wrapper that changes the observation space: the stack must advertise
+        # the space of the observations it actually emits (the inner wrapper's, not the base env's)
+        inner = RescaleObservation(env)
+        if isinstance(env.action_space, Box) and bool(np.isfinite(np.asarray(env.action_space.low)).all()):
+            out.append((f"ClipAction(RescaleObservation({name}))", ClipAction(inner)))
+        else:
+            out.append((f"TransformAction(RescaleObservation({name}))",
+                        TransformAction(inner, lambda a: a, inner.action_space)))
     return out
 
 
@@ -82,9 +90,16 @@ def _check_rollout(ctx, name, env, kind, H, functional, idx, pump=None):
         _, out = jax.lax.scan(body, state, (actions, jr.split(k1, actions.shape[0])))
         return obs0, out
 
-    obs0, (obs, rew, term, trunc) = roll(actions, k_run)
-    sp = env.observation_space
     case = {"kind": "rollout", "env": name, "actions": kind, "horizon": H, "functional_api": functional}
+    try:
+        obs0, (obs, rew, term, trunc) = roll(actions, k_run)
+        jax.block_until_ready(rew)
+    except Exception as e:  # noqa: BLE001 - in-space actions from a reset state must be accepted
+        ctx.case({**case, "idx": idx}, True)
+        ctx.phi_fail("sampled_actions_are_accepted", {**case, "error": f"{type(e).__name__}: {e}"[:400]},
+                     key=f"c02:rollout-raised:{name.split('(')[-1].rstrip(')')}")
+        return
+    sp = env.observation_space
     ctx.case({**case, "idx": idx}, True, sample=case if idx < 2 else None)
     ctx.count(f"rollout:{kind}")
     ctx.count("steps", H)
@@ -165,9 +180,9 @@ def run(ctx):
     for cname, cls in classic:
         variants = _variants(cls(), cname)
         if ctx.quick:
-            pick = [v for v in variants[1:] if v[0].startswith("RescaleObservation")] or \
+            pick = [v for v in variants[1:] if "RescaleObservation" in v[0]] or \
                    [variants[int(ctx.rng.integers(1, len(variants)))]]
-            variants = [variants[0], pick[0]]
+            variants = [variants[0]] + pick
         for name, env in variants:
             _check_action_space(ctx, name, env, idx)
             kinds = ["random", "low", "high", "alternate"]
@@ -195,6 +210,26 @@ def run(ctx):
             for (vi, sg) in [(1, +1), (1, -1)]:
                 _check_rollout(ctx, name, e2, f"pump(y[{vi}],{sg:+d})", 400, functional=False, idx=idx, pump=(vi, sg))
                 idx += 1
+    # documented constructor options of the ODE integration: an adaptive step-size controller with a tight
+    # tolerance, driven to high-energy states by resonant pumping (many solver steps per control step)
+    import diffrax
+    adaptive = [("Acrobot", Acrobot), ("Pendulum", Pendulum), ("CartPole", CartPole)]
+    if not ctx.quick:
+        adaptive += [("MountainCar", MountainCar), ("ContinuousMountainCar", ContinuousMountainCar)]
+    for cname, cls in adaptive:
+        for tol_ in ctx.budget([1e-6, 1e-8], [1e-4, 1e-6, 1e-7, 1e-8]):
+            try:
+                env = cls(solver=diffrax.Tsit5(), stepsize_controller=diffrax.PIDController(rtol=tol_, atol=tol_))
+            except TypeError as e:
+                ctx.note(f"{cname}: solver options not supported: {e}"[:120])
+                continue
+            nm = f"{cname}[Tsit5,PID({tol_:g})]"
+            for (vi, sg) in PUMPS[cname]:
+                _check_rollout(ctx, nm, env, f"pump(y[{vi}],{sg:+d})", 400, functional=False, idx=idx, pump=(vi, sg))
+                idx += 1
+            _check_rollout(ctx, nm, env, "random", 64, functional=False, idx=idx)
+            idx += 1
+        ctx.gc(1)
     if ctx.quick:
         ctx.note("MuJoCo and Unitree G1 environments are rolled out in the thorough tier only (MJX compile time)")
         return
